@@ -250,10 +250,15 @@ def check_pair(ctx, svc, inj, snap, before, req, kinds, desc=None,
         tables = sorted({x.split('[')[0].split(':')[0]
                          for x in (df_ref if (df_ref and resp.status ==
                                               ref_resp.status) else df_clean)})
+        fnames = [f[1] for f in info['frames']]
+        site = ('consumer-cleanup' if 'delete_consumers' in fnames else
+                'write-transaction' if (
+                    '_update_consumers_and_create_allocations' in fnames or
+                    '_set_allocations' in fnames) else 'other')
         raise Violation(
             {'clause': clause, 'kind': kind, 'op': req['op'],
              'scope': 'retry' if retry_scope else 'other',
-             'tables': '+'.join(tables)},
+             'tables': '+'.join(tables), 'site': site},
             {'case': case, 'status': resp.status,
              'reference_status': ref_resp.status, 'code': resp.code(),
              'fault': info, 'diff_vs_reference': (df_ref or [])[:8],
